@@ -2,7 +2,7 @@
    [handle_message] is the model of Server::handle_message (Model/Server.v); [answer] (query
    answering, C05) and [verify] (TSIG HMAC verification, C10/C11) are universally quantified. *)
 From QV Require Import Model.ZoneTree Model.Query Model.MsgWriter Spec.MsgWriterS Proofs.MsgWriterNameP Model.QueryW Proofs.ServerEchoWP
-  Proofs.ServerPlainP Proofs.ServerHdrP.
+  Proofs.ServerPlainP Proofs.ServerHdrP Proofs.ServerHdr3P.
 From QV Require Import Base.ListX Model.NameWire Model.Reader Model.RdataLite Model.Server
   Spec.NameWireS Spec.NameRepr Spec.ReaderS Spec.MsgWalkS Proofs.ReaderP Proofs.ServerP Proofs.ServerEchoP.
 
@@ -135,6 +135,14 @@ Theorem c03_answered_response_header : forall negttl buf tcp id rd qname qtype q
   exists x, nth_error b 2 = Some x /\ (x < 256)%N /\ N.testbit x 7 = true /\ ((x / 8) mod 16 = 0)%N /\ N.testbit x 0 = rd.
 Proof. exact respond_w_header. Qed.
 
+(* ... and RA = 0, Z = 0: the fourth octet (RA | Z | RCODE) of every answered response is below 16.  It starts
+   at 0, only set_rcode touches it, and the answering logic only passes RCODEs that fit in 4 bits (the lifting
+   of Proofs/QueryInv16P.v requires set_rcode to preserve the invariant for such RCODEs only). *)
+Theorem c03_answered_response_ra_z : forall negttl buf tcp id rd qname qtype qclass edns limit z len b,
+  respond_w negttl buf tcp id rd qname qtype qclass edns limit z = Some (len, b) ->
+  exists y, nth_error b 3 = Some y /\ (y < 16)%N.
+Proof. exact respond_w_ra_z. Qed.
+
 (* Non-vacuity: wWw.a. IN A, mixed case, REFUSED: the 11 question octets come back unchanged *)
 Example c03_echo_example :
   let req := [18;52; 1;0; 0;1; 0;0; 0;0; 0;0; 3;119;87;119;1;97;0; 0;1; 0;1]%N in
@@ -157,3 +165,4 @@ Print Assumptions c03_question_echo_octets.
 Print Assumptions c03_plain_response_decodes.
 Print Assumptions c03_answered_response_header.
 Print Assumptions c03_plain_response_end_to_end.
+Print Assumptions c03_answered_response_ra_z.
